@@ -12,8 +12,10 @@ import (
 	"encoding/hex"
 	"errors"
 	"fmt"
+	"github.com/evergreen-ci/birch"
 	"io"
 	"strings"
+	"time"
 
 	"github.com/mongodb/ftdc"
 )
@@ -326,6 +328,10 @@ func wrapCollector(c ftdc.Collector, wrapper string) ftdc.Collector {
 		return ftdc.NewSamplingCollector(0, c)
 	case "syncsample0":
 		return ftdc.NewSynchronizedCollector(ftdc.NewSamplingCollector(0, c))
+	case "sample1h": // only the first Add reaches the wrapped collector (driver hist_run: sampling_long)
+		return ftdc.NewSamplingCollector(time.Hour, c)
+	case "syncsample1h":
+		return ftdc.NewSynchronizedCollector(ftdc.NewSamplingCollector(time.Hour, c))
 	}
 	return c
 }
@@ -353,6 +359,33 @@ func (a *wcollAdapter) Add(d interface{}) error {
 	}
 	_, err := a.wc.Write(b)
 	return err
+}
+
+// the forms in which Collector.Add takes one and the same document (readDocument): raw BSON bytes, a birch document,
+// a value with MarshalDocument, a value with MarshalBSON
+type docMarshalerForm struct{ b []byte }
+
+func (d docMarshalerForm) MarshalDocument() (*birch.Document, error) { return birch.ReadDocument(d.b) }
+
+type bsonMarshalerForm struct{ b []byte }
+
+func (d bsonMarshalerForm) MarshalBSON() ([]byte, error) { return d.b, nil }
+
+func addForm(b []byte, k int, wrapper string) interface{} {
+	if wrapper == "wcoll" {
+		return b // Write takes bytes
+	}
+	switch k % 5 {
+	case 1:
+		if d, err := birch.ReadDocument(append([]byte{}, b...)); err == nil {
+			return d
+		}
+	case 2:
+		return docMarshalerForm{append([]byte{}, b...)}
+	case 3:
+		return bsonMarshalerForm{append([]byte{}, b...)}
+	}
+	return b
 }
 
 // pickWrapper chooses a wrapper for a history; a third of the streaming dynamic cases go through NewWriterCollector
@@ -483,18 +516,25 @@ func runHistory(o *out, id int, c hcase) {
 			held = append(held, [2][]byte{p, append([]byte{}, p...)})
 		}
 	}
+	nadd := 0
 	for _, h := range c.ops {
 		switch h.op {
 		case 'A':
 			var err error
 			if h.raw != nil && c.wrapper == "wcoll" {
-				// Write refuses unreadable bytes before the collector sees them (no flush): not an operation of the model
-				continue
+				// Write refuses unreadable bytes before the collector sees them: an error and no effect (no flush either),
+				// like a refused SetMetadata
+				if _, werr := coll.(*wcollAdapter).wc.Write(h.raw); werr != nil {
+					o.printf("N => err\n")
+				} else {
+					o.printf("N => ok\n")
+				}
 			} else if h.raw != nil {
 				err = coll.Add(h.raw)
 				o.printf("B %s => %s\n", hex.EncodeToString(h.raw), addClass(err))
 			} else {
-				err = coll.Add(encDoc(h.doc))
+				err = coll.Add(addForm(encDoc(h.doc), nadd, c.wrapper))
+				nadd++
 				o.printf("A %s => %s\n", hexDoc(h.doc), addClass(err))
 			}
 		case 'R':
